@@ -172,6 +172,28 @@ func c09Eval(root *inproc.Root, path string, lines []string, v fmtVariant, x str
 	if clause, why := layoutClause(y1); clause != "" {
 		fail(clause, why, y1)
 	}
+	// a file that already is in the canonical layout is left alone (LF files; lines without trailing white space)
+	if c, _ := layoutClause(x); c == "" && y1 != x && !v.CRLF && canonicalLines(x) {
+		fail("canonical-unchanged", "the file is in the canonical layout but format changes it", y1)
+	}
+}
+
+// canonicalLines: no line carries white space at its end or consists of white space only, no odd white space, and
+// directive lines are in normalised spacing
+func canonicalLines(x string) bool {
+	for _, l := range strings.Split(strings.TrimSuffix(x, "\n"), "\n") {
+		if l != strings.TrimRight(l, " \t\r\f\v\u00a0") || strings.ContainsAny(l, "\f\v\r\u00a0\ufeff") {
+			return false
+		}
+		t := strings.TrimLeft(l, " ")
+		if strings.HasPrefix(t, "##!>") && !directiveCanon.MatchString(t) && !strings.HasPrefix(t, "##!> assemble") && !strings.HasPrefix(t, "##!> cmdline ") {
+			return false
+		}
+		if strings.HasPrefix(t, "##!") && !strings.HasPrefix(t, "##! ") && strings.Contains(t, "  ") {
+			return false
+		}
+	}
+	return true
 }
 
 func C09(r *core.Run) {
